@@ -24,6 +24,7 @@ from fractions import Fraction as F
 
 from ..loader import AnalysisError
 from ..pe import show_term, PE, Mock, Obj, PyRaise, Tensor, Fork, Func
+from ..pe import make_var as P_make_var
 from ..qir import Fwd, mk_app
 from ..nf import NF, show
 from .c11 import qm, find_apps, leaves_with_parent
@@ -47,7 +48,7 @@ def S(n):
   return Tensor(("sym", n), (3, 3, 4, 8))
 
 
-def make(ci, spec, mode, has_gamma, use_bias, quantized):
+def make(ci, spec, mode, has_gamma, use_bias, quantized, delay=None):
   o = Obj(ci)
   bn = Mock("batchnorm", {
       "_get_training_value": lambda pe, a, k: False,
@@ -58,12 +59,15 @@ def make(ci, spec, mode, has_gamma, use_bias, quantized):
       "_moments": lambda pe, a, k: (S("batch_mean"), S("batch_var")),
       "__call__": lambda pe, a, k: Tensor(("sym", "bn_out"), None)})
   o.attrs.update({
-      "batchnorm": bn, "ema_freeze_delay": None, "folding_mode": mode,
+      "batchnorm": bn, "ema_freeze_delay": delay, "folding_mode": mode,
       spec["kernel"]: S("kernel"), "bias": S("bias") if use_bias else None,
       "use_bias": use_bias, "strides": (3, 4), "padding": "same",
       "data_format": "channels_last", "dilation_rate": (5, 6),
       "activation": qm("act"),
-      "_iteration": Mock("iteration", {"assign_add": lambda pe, a, k: None}),
+      # the step counter: opaque when unused, a symbolic variable when the
+      # freeze delay compares against it
+      "_iteration": Mock("iteration", {"assign_add": lambda pe, a, k: None})
+      if delay is None else P_make_var(("sym", "iteration")),
       spec["qattr"]: "q" if quantized else None,
       spec["qattr"] + "_internal": qm("kernel") if quantized else None,
       "bias_quantizer": "q" if quantized else None,
@@ -99,14 +103,18 @@ def rule_call(rep, repo):
     for mode in ("ema_stats_folding", "batch_stats_folding"):
       for has_gamma in (True, False):
         for use_bias in (True, False):
-          for quantized in (True, False):
-            cfg = "%s(folding_mode=%s,scale=%s,use_bias=%s,%s)" % (
+          for quantized, delay in ((True, None), (False, None), (True, 3),
+                                   (False, 0)):
+            # with a freeze delay the step counter is a symbol: inference
+            # must not depend on it
+            cfg = "%s(folding_mode=%s,scale=%s,use_bias=%s,%s%s)" % (
                 ci.name, mode, has_gamma, use_bias,
-                "quantized" if quantized else "no quantizers")
+                "quantized" if quantized else "no quantizers",
+                "" if delay is None else ",ema_freeze_delay=%d" % delay)
             pe = PE(repo)
             pe.opaque_ext = True
             pe.fork = Fork([])
-            o = make(ci, spec, mode, has_gamma, use_bias, quantized)
+            o = make(ci, spec, mode, has_gamma, use_bias, quantized, delay)
             x = Tensor(("sym", "inputs"), (2, 8, 8, 4))
             try:
               out = pe.call_func(Func(fn, owner.module, [], "call", o, owner),
